@@ -1,5 +1,6 @@
 from typing import Union
 
+from cryptography.exceptions import InvalidSignature
 from cryptography.hazmat.primitives.asymmetric.dsa import DSAPublicKey
 from cryptography.hazmat.primitives.asymmetric.ec import EllipticCurvePublicKey
 from cryptography.hazmat.primitives.asymmetric.ed448 import Ed448PublicKey
@@ -56,12 +57,17 @@ def verify_signature(
             public_key.verify(signature, data, PKCS1v15(), get_rsa_pkcs1_sig_alg(signature_alg))
         elif is_rsa_pss(signature_alg):
             rsa_alg = get_rsa_pss_sig_alg(signature_alg)
-            public_key.verify(
-                signature,
-                data,
-                PSS(mgf=MGF1(rsa_alg), salt_length=PSS.MAX_LENGTH),
-                rsa_alg,
-            )
+            try:
+                public_key.verify(
+                    signature,
+                    data,
+                    PSS(mgf=MGF1(rsa_alg), salt_length=PSS.MAX_LENGTH),
+                    rsa_alg,
+                )
+            except ValueError as exc:
+                # The key is too small for this digest ("Digest too large for key size"): no
+                # signature can verify under it, so report it like any other bad signature
+                raise InvalidSignature(str(exc))
         else:
             raise UnsupportedAlgorithm(f"Unrecognized RSA signature alg {signature_alg}")
     elif isinstance(public_key, Ed25519PublicKey):
